@@ -52,6 +52,10 @@ type Spec struct {
 
 var lastSpec Spec
 
+// errors found while translating method bodies: the struct/table registry is still emitted for the
+// harness, the Coq programs are not
+var methodErrors []string
+
 type TypeDef struct {
 	Specs              map[int]Spec
 	Lookups            map[int][2]string // field -> (table qualified name, key index as string)
@@ -65,6 +69,7 @@ type TypeDef struct {
 	TblDeps            []string
 	Id                 int
 	HasCtor            bool
+	EncBad, DecBad     bool
 }
 
 type Table struct {
@@ -1317,9 +1322,21 @@ func scanFuncs(p *pkgInfo) {
 						fail(fd.Pos(), "Encode must end in return nil")
 					}
 				}
-				for i, s := range fd.Body.List {
-					td.Enc = append(td.Enc, c.encStmt(s, i == n-1)...)
-				}
+				func() {
+					defer func() {
+						if r := recover(); r != nil {
+							te, ok := r.(terr)
+							if !ok {
+								panic(r)
+							}
+							methodErrors = append(methodErrors, fmt.Sprintf("%s: %s", fset.Position(te.pos), te.msg))
+							td.EncBad = true
+						}
+					}()
+					for i, s := range fd.Body.List {
+						td.Enc = append(td.Enc, c.encStmt(s, i == n-1)...)
+					}
+				}()
 			} else {
 				if fd.Type.Results.NumFields() != 1 || exprStr(fd.Type.Results.List[0].Type) != "error" {
 					fail(fd.Pos(), "Decode must return error")
@@ -1333,9 +1350,21 @@ func scanFuncs(p *pkgInfo) {
 				if _, ok := fd.Body.List[n-1].(*ast.ReturnStmt); !ok {
 					fail(fd.Pos(), "Decode must end in return nil")
 				}
-				for i, s := range fd.Body.List {
-					td.Dec = append(td.Dec, c.decStmt(s, i == n-1)...)
-				}
+				func() {
+					defer func() {
+						if r := recover(); r != nil {
+							te, ok := r.(terr)
+							if !ok {
+								panic(r)
+							}
+							methodErrors = append(methodErrors, fmt.Sprintf("%s: %s", fset.Position(te.pos), te.msg))
+							td.DecBad = true
+						}
+					}()
+					for i, s := range fd.Body.List {
+						td.Dec = append(td.Dec, c.decStmt(s, i == n-1)...)
+					}
+				}()
 			}
 		}
 	}
@@ -1655,14 +1684,24 @@ func main() {
 		vers = append(vers, fmt.Sprintf("(%s, %s)", coqString(p.short), coqString(versionOf(*root, p.short))))
 	}
 	fmt.Fprintf(&sb, "Definition versions : list (String.string * String.string) := [%s].\n", strings.Join(vers, "; "))
-	if *outCoq != "" {
+	if *outCoq != "" && len(methodErrors) == 0 {
 		if err := os.WriteFile(*outCoq, []byte(sb.String()), 0o644); err != nil {
 			panic(err)
 		}
 	}
 
 	// JSON
-	type jField struct{ Name, Kind, Ity, Ref, GoTy string }
+	type jField struct {
+		Name, Kind, Ity, Ref, GoTy string
+		Wire                       string
+		Le                         bool
+		Cnt, Len                   string
+		N, Pad                     int
+		Left                       bool
+		Tbl                        string
+		Key                        int
+		Nil                        string // what Encode does with a nil pointer/interface: panic | skip | fill-new | fill-table
+	}
 	type jType struct {
 		Id      int
 		Pkg     string
@@ -1703,7 +1742,33 @@ func main() {
 			if f.Ref != "" {
 				ref = fmt.Sprint(types[f.Ref].Id)
 			}
-			jt.Fields = append(jt.Fields, jField{f.Name, f.Kind, f.Ity, ref, f.GoTy})
+			jf := jField{Name: f.Name, Kind: f.Kind, Ity: f.Ity, Ref: ref, GoTy: f.GoTy, Wire: f.Kind, Key: -1}
+			if sp, ok := td.Specs[len(jt.Fields)]; ok {
+				jf.Wire, jf.Le, jf.Cnt, jf.Len, jf.N, jf.Pad, jf.Left = sp.Kind, sp.Le, sp.Cnt, sp.Len, sp.N, sp.Pad, sp.Left
+				if sp.Ity != "" {
+					jf.Ity = sp.Ity
+				}
+			}
+			if lk, ok := td.Lookups[len(jt.Fields)]; ok {
+				jf.Tbl = lk[0]
+				jf.Key = atoi(lk[1])
+			}
+			if f.Kind == "ptr" || f.Kind == "iface" {
+				jf.Nil = "panic"
+				for _, st := range td.Enc {
+					var a int
+					if n, err := fmt.Sscanf(st, "ECall %d GIfNotNil", &a); err == nil && n == 1 && a == len(jt.Fields) {
+						jf.Nil = "skip"
+					}
+					if n, _ := fmt.Sscanf(st, "EFillNew %d", &a); n == 1 && a == len(jt.Fields) {
+						jf.Nil = "fill-new"
+					}
+					if n, _ := fmt.Sscanf(st, "EFill %d", &a); n == 1 && a == len(jt.Fields) {
+						jf.Nil = "fill-table"
+					}
+				}
+			}
+			jt.Fields = append(jt.Fields, jf)
 		}
 		for _, s := range td.Enc {
 			jt.Enc = append(jt.Enc, resolve(s, tblIds))
@@ -1744,7 +1809,26 @@ func main() {
 		}
 		g.WriteString(")\n\nvar genTypes = []genType{\n")
 		for _, td := range order {
-			fmt.Fprintf(&g, "\t{%d, %q, %q, func() any { return &%s.%s{} }, %v, []genField{", td.Id, td.Pkg, td.Name, alias[td.Pkg], td.Name, td.EncErr)
+			lenF, bodyF, sumF, alg := -1, -1, -1, ""
+			for _, st := range td.Enc {
+				var a, b2 int
+				var nm, rt, from string
+				if n, _ := fmt.Sscanf(st, "ESetLen %d", &a); n == 1 {
+					lenF = a
+				}
+				if n, err := fmt.Sscanf(st, "ECall %d GIfNotNil", &a); err == nil && n == 1 && td.Fields[a].Kind == "iface" {
+					bodyF = a
+				}
+				if strings.HasPrefix(st, "ESum ") {
+					parts := strings.Fields(st)
+					nm, rt, from = parts[1], parts[2], parts[3]
+					_, _ = rt, from
+					fmt.Sscanf(parts[len(parts)-1], "%d", &b2)
+					sumF = b2
+					alg = strings.TrimSuffix(strings.Trim(nm, "\""), "\"%string")
+				}
+			}
+			fmt.Fprintf(&g, "\t{%d, %q, %q, func() any { return &%s.%s{} }, %v, genFrame{%d, %d, %d, %q}, []genField{", td.Id, td.Pkg, td.Name, alias[td.Pkg], td.Name, td.EncErr, lenF, bodyF, sumF, alg)
 			for i, f := range td.Fields {
 				sp, ok := td.Specs[i]
 				if !ok {
@@ -1775,6 +1859,12 @@ func main() {
 		if err := os.WriteFile(*outGo, []byte(g.String()), 0o644); err != nil {
 			panic(err)
 		}
+	}
+	if len(methodErrors) > 0 {
+		for _, e := range methodErrors {
+			fmt.Fprintf(os.Stderr, "TRANSLATOR-ERROR %s\n", e)
+		}
+		os.Exit(2)
 	}
 	fmt.Printf("translated %d types, %d tables, %d services\n", len(order), len(tblNames), len(services))
 }
